@@ -2,7 +2,7 @@ CONSTANTS
   ProgName = "enum3"
   G = {"g1", "g2"}
   Programs <- TProg
-  NExch = 2  WholeCall = TRUE  Locked = TRUE
+  NExch = 2  WholeCall = TRUE  Locked = TRUE  NotifyInside = TRUE
   V = {"v1"} DocOf <- DocOf1 SignTime <- SignTimeAB ValidAt <- ValidAtAB PerCallContext = TRUE
   C = {"c1"}
 INIT TInit
